@@ -23,7 +23,10 @@ fn check_rt(what: &str, b: &[u8], rt: Result<RoundTrip, String>, ctx: &mut Ctx) 
         ctx.class("has-nan");
     }
     if rt.b1 != b || b.len() > 8 {
-        ctx.nontrivial(hash_bytes(&[what.as_bytes(), b].concat()));
+        if ctx.nontrivial.is_empty() {
+            // one key per input: distinct by bytes (several types may accept the same bytes)
+            ctx.nontrivial(hash_bytes(b));
+        }
         ctx.sample_with(|| format!("{}: {} -> {}", what, hex_trunc(b, 48), hex_trunc(&rt.b1, 48)));
     }
     Ok(())
@@ -121,14 +124,14 @@ pub fn property() -> Property {
         title: "Decode-encode reaches a fixed point in one step and loses nothing",
         rule: "byte strings from the structured generators of all 26 types in non-canonical styles (wide heads, indefinite lengths, bignum integers, undefined for nil, floats of every width, NaNs, tags), \
                optionally tagged, with 0-2 byte mutations; every type (and tagged entry point) is tried on the same bytes; exhaustive: all byte strings of length <= 2 (thorough: <= 3); \
-               non-trivial = accepted and (the input was not already the crate's own encoding, or longer than 8 bytes); distinct by (type, bytes)",
+               non-trivial = accepted by some type and (the input was not already the crate's own encoding, or longer than 8 bytes); distinct by input bytes",
         assumptions: &["equality of decoded values: derived == unless a NaN is present, always equality of the Debug renderings (structural; prints every NaN alike)"],
         exhaustive_domains: &["all byte strings of length 0..2 (quick) or 0..3 (thorough) x all types and tagged entry points"],
         case,
         exh_count,
         exh_case,
         bytes_case: Some(bytes_case),
-        quick_cases: 60_000,
+        quick_cases: 200_000,
         thorough_cases: 1_500_000,
         max_tape: 2048,
     }
